@@ -6,6 +6,7 @@ import (
 	"io"
 	"strings"
 	"sync"
+	"unicode/utf8"
 
 	"google.golang.org/grpc"
 	"google.golang.org/grpc/codes"
@@ -71,6 +72,16 @@ func handlerErr(err error) error {
 		// to a gRPC server an error like any other (Unknown "EOF"); handed on as it is, the client would read
 		// it as "the stream ended well" - also when the handler added context to it (errors.Is still says EOF)
 		return status.Error(codes.Unknown, err.Error())
+	}
+	if st, isStatus := status.FromError(err); isStatus && err != nil && !utf8.ValidString(st.Message()) {
+		// a status text travels as UTF-8: on the wire every byte that is not becomes U+FFFD
+		var text strings.Builder
+		for _, r := range st.Message() {
+			text.WriteRune(r) // (ranging over a string yields U+FFFD for each invalid byte)
+		}
+		p := st.Proto()
+		p.Message = text.String()
+		return status.ErrorProto(p)
 	}
 	if _, isStatus := status.FromError(err); !isStatus && (errors.Is(err, context.DeadlineExceeded) || errors.Is(err, context.Canceled)) {
 		return status.FromContextError(err).Err() // also when the handler added context to it: the text is kept
